@@ -163,10 +163,14 @@ fn as_leg_info_with_break<'a>(
 
 /// Gets break time window.
 pub(crate) fn get_break_time_window(tour: &Tour, vehicle_break: &VehicleBreak) -> GenericResult<TimeWindow> {
+    // NOTE a break served at the start location is a part of the first stop: use the time of the departure activity
     let departure = tour
         .stops
         .first()
-        .map(|stop| parse_time(&stop.schedule().departure))
+        .map(|stop| {
+            let activity_time = stop.activities().first().and_then(|activity| activity.time.as_ref());
+            parse_time(activity_time.map_or(&stop.schedule().departure, |time| &time.end))
+        })
         .ok_or_else(|| format!("cannot get departure time for tour: '{}'", tour.vehicle_id))?;
 
     match vehicle_break {
